@@ -205,7 +205,7 @@ PROPS = {
     'C17': dict(
         level='other',
         functions=[SEQ + f for f in ('__init__', 'swapRes', 'swapRandChargeRes', 'full_shuffle')] +
-                  [SP + f for f in ('__init__#seqobj', 'get_shuffled_sequence')] + ['localcider/sequencePermutants.py:SequencePermutants.get_permutant'],
+                  [SP + f for f in ('__init__', '__init__#seqobj', 'get_shuffled_sequence')] + ['localcider/sequencePermutants.py:SequencePermutants.get_permutant'],
         lemmas=['nmov_strict', 'nmov_nonneg', 'nmov_mono', 'nmov_nonneg_all'], lean=[('Perm.lean', 'perm_counts')],
         native='c17',
         explanation='proved for all sequences, all frozen sets and ALL outcomes of the internal random choices (random.Random methods return fresh values constrained only by the library contract): '
@@ -260,7 +260,7 @@ PROPS = {
                                                                                               'get_WF_complexity', 'get_LC_complexity', 'get_LZW_complexity')] +
                   [SEQ + f for f in ('__check_window_to_length', 'get_linear_WF_complexity', 'get_linear_LC_complexity', 'get_linear_LZW_complexity')] +
                   [SP + 'get_linear_complexity', SP + 'get_linear_complexity#badtype'],
-        lemmas=[], lean=[('Entropy.lean', 'wf_le_one'), ('Entropy.lean', 'card_words')],
+        lemmas=[], lean=[('Entropy.lean', 'wf_le_one'), ('Entropy.lean', 'card_words')], extra=['C12'],
         native='c11',
         assumptions=['proved by z3: window count K = floor((N-w)/s)+1 (all three types), positions strictly increasing inside 1..N, each WF value = - sum over the alphabet letters of p log_A p with p the letter\'s share of '
                      'ITS OWN window of the reduced sequence (locality: only indices [k s, k s + w) are read), LZW in [0,1], LC >= 0 and LC * vmax <= number of word positions, unknown type and w > N rejected, type case-insensitive',
